@@ -388,7 +388,8 @@ def bus_forwarding(ctx, rng, per_message):
     net = busnet.Net()
     victim = net.raw_client()
     attacker = net.raw_client()
-    if not victim.unique or not attacker.unique:
+    honest = net.raw_client()
+    if not victim.unique or not attacker.unique or not honest.unique:
         ctx.report('bus-unusable', 'scripted clients cannot attach to the built-in bus (Hello unanswered) after the hostile '
                    'decodes of this run', {'victim': victim.unique, 'attacker': attacker.unique}, {'kind': 'busfwd'})
         return
@@ -406,21 +407,45 @@ def bus_forwarding(ctx, rng, per_message):
             start = len(raw) - body_len
             positions = list(range(start, len(raw)))
             rng.shuffle(positions)
-            for pos in positions[:per_message]:
+            # ... and the fixed header (byte-order flag, type, flags, version, lengths) plus some header-field bytes
+            hdr_positions = list(range(0, 16)) + rng.sample(range(16, start), min(6, max(0, start - 16)))
+            for pos in hdr_positions + positions[:per_message]:
                 orig = raw[pos]
-                for v in (orig ^ 0x80, orig ^ 0x01, 0x00, 0xFF, (orig + 1) & 0xFF):
+                for v in (orig ^ 0x80, orig ^ 0x01, 0x00, 0xFF, (orig + 1) & 0xFF) + ((0x58, 0x4c) if pos == 0 else ()):
                     if v == orig:
                         continue
                     data = raw[:pos] + bytes([v]) + raw[pos + 1:]
                     if attacker.server.lost or attacker.closed_by_bus:
+                        net.clients.remove(attacker)
                         attacker = net.raw_client()
                         ctx.count('attackers_dropped')
+                    elif pos < start:
+                        # a lying length field may have left the previous attacker's own stream waiting for more bytes
+                        attacker.disconnect()
+                        net.clients.remove(attacker)
+                        attacker = net.raw_client()
                     attacker.serial += 1
                     attacker.send_raw(data)
                     ctx.count('evaluations')
                     ctx.count('bus_forwarded_hostile')
+                    if pos < start:
+                        ctx.count('bus_forwarded_hostile_header')
+                    # an honest third connection talks to the same addressee right afterwards: it must get through
+                    canary_tok = 'canary-%d' % ctx.counters['bus_forwarded_hostile']
+                    if honest.server.lost or honest.closed_by_bus:
+                        ctx.report('bystander-dropped', 'a hostile message from one connection cost a THIRD connection its '
+                                   'link to the bus', {'bytes': data}, {'kind': 'busfwd'})
+                        return
+                    honest.call('Canary', 's', [canary_tok], destination=victim.unique, path='/c', interface='c.d')
                     got = victim.take()
                     w = {'sig': sig, 'type': mtype, 'pos': pos - start, 'value': v, 'bytes': data}
+                    if not any(m.body == [canary_tok] for m in got if not m.malformed):
+                        w['victim_pending_bytes'] = len(victim.bin)
+                        ctx.report('bystander-stalled', 'after a hostile message addressed to it was passed on by the bus, the '
+                                   'addressee no longer receives an honest message from a third connection (%d bytes sit '
+                                   'unframed in its stream)' % len(victim.bin), w, {'kind': 'busfwd'})
+                        return
+                    got = [m for m in got if m.body != [canary_tok]]
                     # judged with txdbus' own decoder, as a txdbus addressee would apply it: the statement allows decoding
                     # to end "with a decoded message", so what txdbus decodes (e.g. a NUL inside a string) is not held
                     # against the bus even where the reference reader is stricter
